@@ -23,18 +23,21 @@ var durationType = reflect.TypeOf(time.Duration(0))
 // non-empty, otherwise it is also UTC but the caller's interpretation may
 // treat it as naive.
 func timestampToTime(v int64, ts *arrow.TimestampType) time.Time {
-	var d time.Duration
+	// Built from the Unix constructors rather than epoch.Add(Duration(v)*unit):
+	// a time.Duration is int64 nanoseconds, so v*unit wraps for any second,
+	// milli- or microsecond value more than ~292 years from the epoch, which
+	// both the wire type and time.Time represent.
 	switch ts.Unit {
 	case arrow.Second:
-		d = time.Duration(v) * time.Second
+		return time.Unix(v, 0).UTC()
 	case arrow.Millisecond:
-		d = time.Duration(v) * time.Millisecond
+		return time.UnixMilli(v).UTC()
 	case arrow.Microsecond:
-		d = time.Duration(v) * time.Microsecond
+		return time.UnixMicro(v).UTC()
 	case arrow.Nanosecond:
-		d = time.Duration(v)
+		return time.Unix(0, v).UTC()
 	}
-	return time.Unix(0, 0).UTC().Add(d)
+	return time.Unix(0, 0).UTC()
 }
 
 func setTimeField(field reflect.Value, fieldType reflect.Type, isPtr bool, val time.Time) {
